@@ -109,11 +109,13 @@ type VC struct {
 	axioms      map[string][]*axiomRec
 	instDone    map[string]int
 	naxiom      int
+	parents     map[string][]string // heap array -> arrays it is defined from
+	axiomOf     map[string]*axiomRec
 }
 
 func newVC(w *World, root *ssa.Function) *VC {
 	return &VC{w: w, root: root, declared: map[string]bool{}, obSeen: map[string]int{},
-		inlined: map[string]bool{}, used: map[string]bool{}, trusted: map[string]bool{}, termSorts: map[string]string{}, lastLatch: map[string][]string{}, defs: map[string]string{}, allocLog: map[string]bool{}, axioms: map[string][]*axiomRec{}, instDone: map[string]int{}}
+		inlined: map[string]bool{}, used: map[string]bool{}, trusted: map[string]bool{}, termSorts: map[string]string{}, lastLatch: map[string][]string{}, defs: map[string]string{}, allocLog: map[string]bool{}, axioms: map[string][]*axiomRec{}, instDone: map[string]int{}, parents: map[string][]string{}, axiomOf: map[string]*axiomRec{}}
 }
 
 func (vc *VC) cmd(s string) { vc.items = append(vc.items, Item{Cmd: s}) }
@@ -131,6 +133,9 @@ func (vc *VC) define(prefix, srt, term string) string {
 	n := vc.name(prefix)
 	vc.cmd(fmt.Sprintf("(define-fun %s () %s %s)", n, srt, term))
 	vc.defs[n] = term
+	if strings.HasPrefix(srt, "(Array") {
+		vc.parents[n] = arrayTokens(term, prefix)
+	}
 	return n
 }
 
@@ -392,7 +397,7 @@ func sortedKeys(m map[string]bool) []string {
 // changed by a havoc: no function of the package stores to a global (checked
 // by the write-freedom scan, trusted base item 5).
 func (vc *VC) staticFrame(key, nw, old string) {
-	vc.addAxiom(key, fmt.Sprintf("(forall ((a Int)) (! (=> (< a %d) (= (select %s a) (select %s a))) :pattern ((select %s a))))", staticEnd, nw, old, nw),
+	vc.addAxiomArr(key, nw, old, fmt.Sprintf("(forall ((a Int)) (! (=> (< a %d) (= (select %s a) (select %s a))) :pattern ((select %s a))))", staticEnd, nw, old, nw),
 		func(idx string) (string, []string) {
 			return imp(lt(idx, intLit(staticEnd)), eq(sel(nw, idx), sel(old, idx))), nil
 		})
@@ -410,16 +415,21 @@ type axiomRec struct {
 	// inst returns the instance of the axiom at index idx and the indices at
 	// which the instance itself reads the same heap key
 	inst func(idx string) (string, []string)
+	old  string
 }
 
-// addAxiom emits a quantified fact about heap key `key` (used by the full
-// solver pass) and registers its instantiation function: every later read of
-// that key at a ground index gets the corresponding quantifier-free instance,
-// which is what the first (quantifier-free) pass works with.
-func (vc *VC) addAxiom(key, quantified string, inst func(idx string) (string, []string)) {
+// addAxiom emits a quantified fact defining heap array nw from array old
+// (used by the full solver pass) and registers its instantiation function:
+// every later read of nw, or of an array derived from it, at a ground index
+// gets the corresponding quantifier-free instance, which is what the first
+// (quantifier-free) pass works with.
+func (vc *VC) addAxiomArr(key, nw, old, quantified string, inst func(idx string) (string, []string)) {
 	vc.assume(quantified)
 	vc.naxiom++
-	vc.axioms[key] = append(vc.axioms[key], &axiomRec{id: vc.naxiom, born: len(vc.items), inst: inst})
+	a := &axiomRec{id: vc.naxiom, born: len(vc.items), inst: inst, old: old}
+	vc.axioms[key] = append(vc.axioms[key], a)
+	vc.axiomOf[nw] = a
+	vc.parents[nw] = []string{old}
 }
 
 func (vc *VC) dropAxiomsFrom(itemIndex int) {
@@ -433,6 +443,11 @@ func (vc *VC) dropAxiomsFrom(itemIndex int) {
 		}
 		vc.axioms[k] = as[:n]
 	}
+	for k, a := range vc.axiomOf {
+		if a.born > itemIndex {
+			delete(vc.axiomOf, k)
+		}
+	}
 	for k, at := range vc.instDone {
 		if at >= itemIndex {
 			delete(vc.instDone, k)
@@ -441,28 +456,47 @@ func (vc *VC) dropAxiomsFrom(itemIndex int) {
 }
 
 // read returns (select arr idx) for a heap leaf and instantiates the
-// registered axioms of that key at idx.
+// axioms in the history of that array at idx.
 func (vc *VC) read(st *State, l Leaf, idx string) string {
-	t := sel(vc.arr(st, l), idx)
-	vc.instantiate(l.Key, idx, 0)
-	return t
+	arr := vc.arr(st, l)
+	vc.instantiate(arr, idx, 0)
+	return sel(arr, idx)
 }
 
-func (vc *VC) instantiate(key, idx string, depth int) {
+func (vc *VC) instantiate(arr, idx string, depth int) {
 	if depth > 3 || vc.noDefine > 0 || strings.Contains(idx, "q_") {
 		return
 	}
-	as := vc.axioms[key]
-	for _, a := range as {
-		k := fmt.Sprintf("%d|%s", a.id, idx)
-		if _, ok := vc.instDone[k]; ok {
+	seen := map[string]bool{}
+	stack := []string{arr}
+	for len(stack) > 0 {
+		x := stack[len(stack)-1]
+		stack = stack[:len(stack)-1]
+		if seen[x] {
 			continue
 		}
-		vc.instDone[k] = len(vc.items)
-		t, more := a.inst(idx)
-		vc.cmd("(assert " + t + ")")
-		for _, m := range more {
-			vc.instantiate(key, m, depth+1)
+		seen[x] = true
+		if a := vc.axiomOf[x]; a != nil {
+			k := fmt.Sprintf("%d|%s", a.id, idx)
+			if _, ok := vc.instDone[k]; !ok {
+				vc.instDone[k] = len(vc.items)
+				t, more := a.inst(idx)
+				vc.cmd("(assert " + t + ")")
+				for _, m := range more {
+					vc.instantiate(a.old, m, depth+1)
+				}
+			}
+		}
+		stack = append(stack, vc.parents[x]...)
+	}
+}
+
+func arrayTokens(term, prefix string) []string {
+	var out []string
+	for _, tok := range strings.FieldsFunc(term, func(r rune) bool { return r == ' ' || r == '(' || r == ')' }) {
+		if strings.HasPrefix(tok, prefix+"!") || tok == prefix+"_0" {
+			out = append(out, tok)
 		}
 	}
+	return out
 }
